@@ -32,7 +32,7 @@ func init() {
 			"(v0/v1, filled with the true offsets/durations), 0..2 sidx boxes per segment, mfra+mfro with one tfra entry per segment or per fragment, emsg boxes before the moof " +
 			"(inside the fragment via AddEmsg or at file level); idx%8==7 additionally places prft/free/skip/uuid/unknown boxes in and between fragments (weak oracle only); " +
 			"idx%8 in {5,6} draws layouts with exactly one delimiter mechanism (5: without emsg) so that the strong form is exercised often. " +
-			"Each file is decoded with a drawn flag set {0, DecISMFlag, DecStartOnMoof} through DecodeFile and DecodeFileSR. " +
+			"Each file is decoded with a drawn flag set {0, DecISMFlag, DecStartOnMoof, both} through DecodeFile and DecodeFileSR (with both flags a top-level sidx or an mfra in force keeps precedence over start-on-moof, as the flag's doc comment says). " +
 			"Oracle 1 (grouping): weak form always; strong form (segment boundaries exactly at the ground-truth delimiters) only when a single mechanism is present. " +
 			"Oracle 2: default segment-mode Encode and EncodeSW keep ftyp, moov and every emsg/moof/mdat byte-identical and in order. " +
 			"Oracle 3: UpdateSidx(addIfNotExists, nonZeroEPT drawn) then Encode, and for 1 file in 4 the add-sidx binary: the first top-level sidx read from the output bytes tiles the media. " +
@@ -144,7 +144,11 @@ func classify(h *genfrag.History, b *genfrag.Built, flags mp4.DecFileFlags, read
 	if mfraEff > 0 {
 		mech++
 	}
-	if som {
+	// "DecStartOnMoof starts a segment at each moof boundary. This is provided no styp, or
+	// sidx/mfra box gives other information" (doc comment of the flag): a top-level sidx or
+	// an mfra in force takes precedence, so the flag is then not a mechanism of its own.
+	somEff := som && !top && mfraEff == 0
+	if somEff {
 		mech++
 	}
 	switch {
@@ -157,7 +161,7 @@ func classify(h *genfrag.History, b *genfrag.Built, flags mp4.DecFileFlags, read
 		l.strong = "topsidx"
 	case mech == 1 && mfraEff > 0 && !segSidx && !l.hasEmsg:
 		l.strong = fmt.Sprintf("mfra%d", mfraEff)
-	case mech == 1 && som && !segSidx:
+	case mech == 1 && somEff && !segSidx:
 		l.strong = "som"
 	}
 	return l
@@ -198,7 +202,7 @@ func (e *env) viol(key, what string) {
 // cause is the coarse layout class used in finding keys: decode flag and emsg
 // presence (the strong-form keys carry their mechanism themselves).
 func (e *env) cause() string {
-	fl := map[mp4.DecFileFlags]string{0: "noflag", mp4.DecISMFlag: "ism", mp4.DecStartOnMoof: "som"}[e.flags]
+	fl := map[mp4.DecFileFlags]string{0: "noflag", mp4.DecISMFlag: "ism", mp4.DecStartOnMoof: "som", mp4.DecISMFlag | mp4.DecStartOnMoof: "ism+som"}[e.flags]
 	if e.sidxClass != "" {
 		return e.sidxClass
 	}
@@ -235,9 +239,12 @@ func run(c *runner.Ctx, idx int) {
 		c.Count("cases_without_fragment", 1)
 		return
 	}
-	flags := mp4.DecFileFlags(c.Rand.PickInt(0, 0, int(mp4.DecISMFlag), int(mp4.DecStartOnMoof)))
+	flags := mp4.DecFileFlags(c.Rand.PickInt(0, 0, int(mp4.DecISMFlag), int(mp4.DecStartOnMoof), int(mp4.DecISMFlag|mp4.DecStartOnMoof)))
 	if h.Layout.Mfra > 0 && c.Rand.Chance(3, 4) {
 		flags = mp4.DecISMFlag
+		if c.Rand.Chance(1, 3) {
+			flags |= mp4.DecStartOnMoof // combined flags: the mfra keeps precedence
+		}
 	}
 	o3add, o3nz, tool := c.Rand.Chance(3, 4), c.Rand.Bool(), c.Rand.Chance(1, 4)
 	decoded := false
